@@ -1,0 +1,72 @@
+//! Verification hooks, compiled only with `--cfg qwt_verif`.
+//!
+//! The Huffman-shaped trees break ties (symbols of equal frequency, codes of equal
+//! length) in the iteration order of a randomly seeded `HashMap`. When a tie seed is
+//! set for the current thread, ties are broken by a keyed hash of the symbol instead,
+//! so that a construction is a pure function of (sequence, seed).
+use std::cell::Cell;
+use std::collections::HashMap;
+
+thread_local! {
+    static TIE_SEED: Cell<Option<u64>> = const { Cell::new(None) };
+}
+
+/// Sets (or clears) the tie seed used by the constructions run on this thread.
+pub fn set_tie_seed(seed: Option<u64>) {
+    TIE_SEED.with(|s| s.set(seed));
+}
+
+/// Returns the tie seed of this thread.
+pub fn tie_seed() -> Option<u64> {
+    TIE_SEED.with(|s| s.get())
+}
+
+fn mix(seed: u64, symbol: usize) -> u64 {
+    let mut x = seed ^ (symbol as u64).wrapping_mul(0x9E37_79B9_7F4A_7C15);
+    x ^= x >> 30;
+    x = x.wrapping_mul(0xBF58_476D_1CE4_E5B9);
+    x ^= x >> 27;
+    x = x.wrapping_mul(0x94D0_49BB_1331_11EB);
+    x ^ (x >> 31)
+}
+
+/// Key used to order symbols inside a tie class.
+pub fn tie_key(symbol: usize) -> (u64, usize) {
+    match tie_seed() {
+        Some(seed) => (mix(seed, symbol), symbol),
+        None => (0, 0),
+    }
+}
+
+/// Reassigns the code lengths among symbols of equal frequency in the order given by
+/// the tie key. The multiset of lengths of every frequency class is unchanged, hence
+/// the code stays a minimum-redundancy one. No-op when no seed is set.
+pub fn permute_lengths_among_equal_frequencies<F: Copy + Ord>(
+    frequencies: &[(usize, F)],
+    lengths: &mut HashMap<usize, u32>,
+) {
+    if tie_seed().is_none() {
+        return;
+    }
+    let mut by_freq: Vec<(F, (u64, usize), usize)> = frequencies
+        .iter()
+        .map(|&(symbol, f)| (f, tie_key(symbol), symbol))
+        .collect();
+    by_freq.sort();
+    let mut start = 0;
+    while start < by_freq.len() {
+        let mut end = start;
+        while end < by_freq.len() && by_freq[end].0 == by_freq[start].0 {
+            end += 1;
+        }
+        let mut class_lengths: Vec<u32> = by_freq[start..end]
+            .iter()
+            .map(|x| lengths[&x.2])
+            .collect();
+        class_lengths.sort_unstable();
+        for (x, len) in by_freq[start..end].iter().zip(class_lengths) {
+            lengths.insert(x.2, len);
+        }
+        start = end;
+    }
+}
